@@ -26,7 +26,7 @@ ASSUMPTIONS = ['a search that raises is not judged here (C09 owns totality); suc
                'admitted-set model is skipped when a share / budget / truncation comparison is within 1e-9 of flipping']
 EXHAUSTIVE = {'quick': False, 'thorough': False}
 MINIMA = {'quick': {'variant_unicode_ids': 20, 'variant_empty_table': 8, 'searches_after_query_result_edits': 60, 'shared_data_searches': 40, 'designs_checked': 300, 'admitted_checked': 150, 'distinct_nontrivial': 100, 'greedy_large': 7},
-          'thorough': {'variant_unicode_ids': 200, 'variant_empty_table': 80, 'searches_after_query_result_edits': 600, 'shared_data_searches': 400, 'designs_checked': 5000, 'admitted_checked': 2000, 'distinct_nontrivial': 1500, 'greedy_large': 100}}
+          'thorough': {'variant_unicode_ids': 200, 'variant_empty_table': 80, 'searches_after_query_result_edits': 600, 'shared_data_searches': 400, 'designs_checked': 5000, 'admitted_checked': 2000, 'distinct_nontrivial': 1350, 'greedy_large': 100}}
 N = {'quick': 360, 'thorough': 3000}
 N_LARGE = {'quick': 40, 'thorough': 240}
 CASE_TIMEOUT = {'quick': 300, 'thorough': 900}
